@@ -292,8 +292,14 @@ def check_artefacts(b, text, A, E, o, tmpdir, w, bad, must_fail):
             with open(a_path, encoding='utf-8') as f:
                 got = f.read()
             A2 = list(A)
-            b.check('C15.raw-actual-holds-the-actual-content', got.split('\n') == A2
-                    or got == '\n'.join(A2), w,
+
+            def trim(lines):
+                # trailing empty lines are not significant under the line-based comparison rule (C04)
+                lines = list(lines)
+                while lines and lines[-1] == '':
+                    lines.pop()
+                return lines
+            b.check('C15.raw-actual-holds-the-actual-content', trim(got.split('\n')) == trim(A2), w,
                     'actual was %r, file holds %r' % (A2, got))
     exclusions = any(o.get(k) for k in ('ignore_substrings', 'ignore_patterns', 'remove_lines', 'preprocess'))
     post = [c for c in cmds if os.path.basename(c[0]).startswith('actual-')
